@@ -8,11 +8,14 @@ add <kind> <cfg> <defUnit> <parg> <mode>      -> <int> | <p/q> | ok | ERR
    kind   i  formula returning `ord(start) mod 9973`  (int variable)
           f  formula returning `ord(start) mod 1009`  (float variable)
           g  as i, on a group entity
+          b  bool variable: 1 when `ord(start) mod 3 = 0`, else 0 (its ADD is the number of pieces in which it holds)
           c  no formula, default value 7
           z  neutralised variable (value 0)
-          (an eternal variable's value never depends on the period: 7, or 0 when neutralised)
+          (an eternal variable's value never depends on the period: 7, 1 for the bool variable, or 0 when neutralised)
    cfg    s  values are stored (default configuration)    n  `variables_to_drop` (not stored)
           t  trace=True (the model ignores it)
+          p  primed: one definition-period-long piece was calculated beforehand (the model ignores it:
+             a cached piece has the value the formula gives)
    parg   unit/Y,M,D/size          a Period object
           S:unit/Y,M,D/size        the text `str(period)`, parsed back by `periods.period`
           I:year/Y,1,1/1           the int Y
@@ -35,6 +38,7 @@ def showRat' (x : Rat) : String := if x.den = 1 then toString x.num else s!"{x.n
 /-- the value function the harness's variables implement -/
 def valOf (kind : String) (defUnit : DUnit) (p : Period) : Int :=
   if kind = "z" then 0
+  else if kind = "b" then (if defUnit = .eternity then 1 else if ord p.start % 3 = 0 then 1 else 0)
   else if defUnit = .eternity ∨ kind = "c" then 7
   else if kind = "f" then ord p.start % 1009
   else ord p.start % 9973
@@ -61,7 +65,7 @@ def parseArg? (s : String) : Option PArg :=
 def handleAdd (args : List String) : String :=
   match args with
   | [kind, cfg, du, ps, mode] =>
-    if !(["i", "f", "g", "c", "z"].contains kind) ∨ !(["s", "n", "t"].contains cfg) then "BAD" else
+    if !(["i", "f", "g", "c", "z", "b"].contains kind) ∨ !(["s", "n", "t", "p"].contains cfg) then "BAD" else
     match DUnit.ofName du, parseArg? ps with
     | some u, some parg =>
       let val := valOf kind u
